@@ -74,11 +74,13 @@ pub fn run(args: &Args) {
                     continue;
                 }
                 emu.verif_wait(t - cur);
-                let v = (r.u8() & 0x18) | (r.u8() & 7);
+                // any byte (bits 5-7 are unused by the ULA), through port 0xFE with any upper address byte
+                let v = r.u8();
+                let port = ((r.u8() as u16) << 8) | 0xFE;
                 let t0 = emu.verif_frame_clocks();
                 {
                     let c = emu.verif_cpu();
-                    c.regs.set_bc(0x00FE);
+                    c.regs.set_bc(port);
                     c.regs.set_acc(v);
                     c.regs.set_pc(CODE);
                 }
